@@ -52,6 +52,7 @@ func c18Gen(r *rand.Rand, tier string) any {
 		op.Always = r.IntN(6) == 0
 		op.Dry = r.IntN(8) == 0
 		op.Twice = r.IntN(5) == 0 && sc.Mode != "cycle"
+		op.Reload = r.IntN(6) == 0
 		if r.IntN(4) == 0 {
 			for ti := range shadow.Targets {
 				if r.IntN(4) == 0 {
